@@ -52,6 +52,7 @@ JOBS = {
     "plain1":  ("{}\n", None, dict(n=1, fail=False, inc="none", incn=0)),
     "plain3":  ("x: 1\n", None, dict(n=3, fail=False, inc="none", incn=0)),
     "badtag":  ("x: !nosuch 1\n", None, dict(n=2, fail=True, inc="none", incn=0)),
+    "badroot": ("!nosuch 1\n", None, dict(n=0, fail=True, inc="none", incn=0)),
     "include": ("i: !include {inc}\n", "{}\n", dict(n=3, fail=False, inc="ok", incn=1)),
     "missing": ("i: !include {inc}\n", None, dict(n=3, fail=False, inc="missing", incn=0)),
     "incbad":  ("i: !include {inc}\n", "p: !nosuch 1\n", dict(n=3, fail=False, inc="bad", incn=2)),
@@ -71,8 +72,8 @@ def job_record(job):
 class Files:
     """temporary files of one worker process (outside /repo and /verif, removed afterwards)"""
 
-    def __init__(self):
-        self.dir = tempfile.mkdtemp(prefix="c20_")
+    def __init__(self, parent=None):
+        self.dir = tempfile.mkdtemp(prefix="c20_", dir=parent)
         self.made = {}
 
     def paths(self, t, name):
@@ -428,7 +429,10 @@ def describe_result(files, res):
         if r is None:
             out.append([i, "", "None", None, None, None])
             continue
-        for path, node in r.ayns.nodes_with_paths():
+        listed = list(r.ayns.nodes_with_paths())
+        if not any(n is r for _, n in listed):
+            listed.insert(0, ("<root>", r))
+        for path, node in listed:
             out.append([i, str(path), type(node).__name__, files.norm(node.ayns.source_file), bool(node.ayns.safe),
                         getattr(node, "_default_safe", UNSET)])
     return out
@@ -537,11 +541,9 @@ LINE_FILTERS = {
 }
 
 
-def _winit():
-    _W["files"] = Files()
+def _winit(parent=None):
+    _W["files"] = Files(parent)
     _W["refs"] = {}
-    import atexit
-    atexit.register(_W["files"].close)
     # warm-up: everything lazily initialised by the library happens before any measured run
     for name in JOBS:
         for _ in range(2):
@@ -751,10 +753,10 @@ def plan(tier):
     if tier == "thorough":
         p["verify2"] = pairs(names, names, allsafe) + pairs(names, names, allsafe, build=False)
     else:
-        p["verify2"] = pairs(names, names) + pairs(names, names, ((True, False),), build=False)
+        p["verify2"] = pairs(names, names, ((True, False),)) + pairs(names[:3], names[:3], ((False, True),), build=False)
     if tier == "thorough":
         p["verify3"] = [[(a, True, True), (b, False, True), (c, True, True)]
-                        for a in ("include", "incbad") for b in ("badtag", "missing", "include") for c in ("plain1", "include")]
+                        for a in ("include", "incbad") for b in ("badtag", "missing", "include") for c in ("plain1",)]
     else:
         p["verify3"] = []
     p["live"] = [[("missing", True, True), ("badtag", False, True)]]
@@ -763,33 +765,34 @@ def plan(tier):
     # mutation cfgs: the narrowest universe that holds the witness
     p["mutation"] = [[("include", True, True), ("incbad", False, True)], [("plain1", True, True), ("badtag", False, True)]]
     # A1: all interleavings (marker grain) of add_source calls: different safe flags, one failing input
-    p["emit_all"] = [[("plain1", True, False), ("badtag", False, False)]]
     if tier == "thorough":
-        p["emit_all"] += [[("badtag", True, False), ("plain1", False, False)], [("plain1", True, False), ("plain1", False, False)]]
+        p["emit_all"] = [[("plain1", True, False), ("badtag", False, False)], [("badtag", True, False), ("plain1", False, False)],
+                         [("plain1", True, False), ("plain1", False, False)], [("badroot", True, False), ("badroot", False, False)]]
+    else:
+        p["emit_all"] = [[("plain1", True, False), ("badroot", False, False)]]
     # A2: complete programs (include => nested contexts, failing includes), at most MaxPre preemptions
     if tier == "thorough":
         p["emit_pre"] = (pairs(names, names, ((True, False),)), 2)
-        p["emit_pre3"] = ([[("include", True, True), ("badtag", False, True), ("missing", True, True)],
-                           [("incbad", False, True), ("include", True, True), ("plain1", False, True)]], 2)
+        p["emit_pre3"] = ([[("include", True, True), ("badtag", False, True), ("missing", True, True)]], 2)
         p["emit_deep"] = ([[("plain1", True, True), ("badtag", False, True)], [("include", True, True), ("missing", False, True)]], 3)
     else:
         p["emit_pre"] = ([[("include", True, True), ("incbad", False, True)], [("missing", False, True), ("include", True, True)],
-                          [("plain3", True, True), ("badtag", False, True)], [("incbad", True, True), ("missing", False, True)]], 2)
+                          [("plain3", True, True), ("badtag", False, True)]], 2)
         p["emit_pre3"] = ([[("include", True, True), ("badtag", False, True), ("missing", True, True)]], 1)
         p["emit_deep"] = ([], 3)
     # L: line-grain schedules from Sched.tla: (jobs, line filter, max preemptions)
     if tier == "thorough":
         p["lines"] = [([("plain1", True, False), ("badtag", False, False)], "all", 2),
-                      ([("plain1", False, True), ("plain1", True, True)], "nons", 2),
+                      ([("plain1", False, True), ("plain1", True, False)], "nons", 2),
                       ([("include", True, True), ("incbad", False, True)], "all", 1),
                       ([("missing", False, True), ("include", True, True)], "all", 1),
                       ([("badtag", True, True), ("plain3", False, True)], "all", 1),
                       ([("incbad", True, True), ("missing", False, True)], "all", 1)]
     else:
         p["lines"] = [([("plain1", True, False), ("badtag", False, False)], "all", 1),
-                      ([("include", True, True), ("badtag", False, True)], "all", 1)]
+                      ([("plain3", True, True), ("badtag", False, True)], "all", 1)]
     # B: recorded runs
-    p["traces"] = {2: 1500, 3: 1500, 4: 600} if tier == "thorough" else {2: 250, 3: 250}
+    p["traces"] = {2: 3000, 3: 3000, 4: 1500} if tier == "thorough" else {2: 600, 3: 600}
     return p
 
 
@@ -865,10 +868,16 @@ def run(prop, tier, seed, replay, keep):
     t_start = time.time()
     P = plan(tier)
     wd = tlc.workdir("c20")
+    for f in os.listdir(os.path.join(VERIF, "replays", PROP)) if os.path.isdir(os.path.join(VERIF, "replays", PROP)) else []:
+        if f.endswith(".json"):
+            os.unlink(os.path.join(VERIF, "replays", PROP, f))      # replays of this run only
+    scratch = tempfile.mkdtemp(prefix="c20_")            # the yaml files the threads build from (outside /repo and /verif)
     ctx = multiprocessing.get_context("fork")
-    pool = ctx.Pool(16, initializer=_winit)          # forked before any thread exists in this process
-    tp = ThreadPoolExecutor(max_workers=8)
-    cov = {"configs": [], "mutations": [], "witnesses": []}
+    pool = ctx.Pool(16, initializer=_winit, initargs=(scratch,))   # forked before any thread exists in this process
+    tp = ThreadPoolExecutor(max_workers=10)
+    cov = {"configs": [], "mutations": [], "witnesses": {}}
+    witness = collections.Counter()
+    timeline = []
     violations, viol_count, drift_samples = [], 0, []
     drift = 0
     samples = []
@@ -919,8 +928,6 @@ def run(prop, tier, seed, replay, keep):
         submit("live", "MC_AyThreads", mc_cfg("LineSpec", invariants=(), properties=("Termination2",)), P["live"], workers=2)
         for mname, over, inv in MUTATIONS:
             submit("mut_" + mname, "MC_AyThreads", mc_cfg("LineSpec", invariants=(inv,), **over), P["mutation"], workers=2)
-        for w in ("WitnessOverlap", "WitnessError"):
-            submit("wit_" + w, "MC_AyThreads", mc_cfg("LineSpec", invariants=("Not" + w,)), P["mutation"], workers=2)
         submit("shape", "MC_AyThreads", mc_cfg("MarkerSpec", nthreads=1, record=True, invariants=PROPERTY_INVS + ["Emit"]),
                [[j] for j in singles], workers=2)
         submit("emit_all", "MC_AyThreads", mc_cfg("MarkerSpec", record=True, invariants=PROPERTY_INVS + ["Emit"]), P["emit_all"], workers=8)
@@ -929,13 +936,12 @@ def run(prop, tier, seed, replay, keep):
             if assignments:
                 submit(key, "MC_AyThreads", mc_cfg("MarkerSpec", nthreads=nthreads, record=True, maxpre=mp,
                                                   invariants=PROPERTY_INVS + ["Emit"]), assignments, workers=4)
-        for i, ((jobs, lf, mp), m) in enumerate(zip(P["lines"], meas)):
-            d = os.path.join(wd, "sched%d" % i)
-            os.makedirs(d, exist_ok=True)
-            with open(os.path.join(d, "sched.json"), "w") as f:
-                f.write(json.dumps({"n": [a for a, _ in m]}) + "\n")
-            submit("sched%d" % i, "Sched", cfg("SSpec", {"MaxPre": str(mp)}, ("SEmit", "Bounded")),
-                   env={"C20_SCHED": os.path.join(d, "sched.json")}, workers=4)
+        d = os.path.join(wd, "sched")
+        os.makedirs(d, exist_ok=True)
+        with open(os.path.join(d, "sched.json"), "w") as f:
+            for (jobs, lf, mp), m in zip(P["lines"], meas):
+                f.write(json.dumps({"n": [a for a, _ in m], "p": mp}) + "\n")
+        submit("sched", "Sched", cfg("SSpec", {}, ("SEmit", "Bounded")), env={"C20_SCHED": os.path.join(d, "sched.json")}, workers=6)
 
         # ---- 2. direction B: record real runs while TLC is busy ------------------------------------------------
         rng = random.Random(1000003 * seed + 20)
@@ -962,14 +968,15 @@ def run(prop, tier, seed, replay, keep):
                         r["chunk"] = (nthr, ci, k + 1)
                         f.write(json.dumps(r["trace"]) + "\n")
                 c = dict(BASE_CONSTS)
-                c.update(NThreads=str(nthr), JobAssignments="<- TraceJobs", Soft="FALSE")
+                c.update(NThreads=str(nthr), JobAssignments="<- AnyAssignment", Soft="FALSE")
                 submit("trace%d_%d" % (nthr, ci), "Trace_AyThreads",
                        cfg("TSpec", c, ("TEmit", "OwnFile", "OwnSafety", "ErrorsLocal")),
                        env={"TRACE_FILE": os.path.join(d, "traces.ndjson")}, workers=4)
 
         def result(name):
-            r = fut[name].result()
             nonlocal states, transitions
+            r = fut[name].result()
+            timeline.append([name, round(time.time() - t_start, 1), round(r["wall"], 1)])
             states += r["distinct"]
             transitions += r["generated"]
             return r
@@ -990,12 +997,6 @@ def run(prop, tier, seed, replay, keep):
                                      "states": r["distinct"]})
             if not ok:
                 raise MachineryError("mutation cfg %s was not refuted by TLC (vacuity guard)" % mname)
-        for w in ("WitnessOverlap", "WitnessError"):
-            r = result("wit_" + w)
-            ok = ("Not" + w) in r["violated"]
-            cov["witnesses"].append({"witness": w, "reachable": ok})
-            if not ok:
-                raise MachineryError("witness %s is not reachable in the specification" % w)
 
         # ---- 4. shape conformance: one thread, specification vs the real marker stream -------------------------
         r = result("shape")
@@ -1026,9 +1027,8 @@ def run(prop, tier, seed, replay, keep):
                         "job": seq[6]["job"], "steps": seq[6]["steps"]})
 
         # ---- 5. direction A: replay every printed interleaving in real threads ---------------------------------
-        for key in ("emit_all", "emit_pre", "emit_pre3", "emit_deep"):
-            if key not in fut:
-                continue
+        def phase_emit(key):
+            nonlocal evaluations, validated
             r = result(key)
             if r["violated"]:
                 raise MachineryError("the specification violates %s in %s" % (r["violated"], key))
@@ -1047,6 +1047,19 @@ def run(prop, tier, seed, replay, keep):
                     nontrivial.add(sha([b["jobs"], [h[0] for h in b["hist"]]]))
             evaluations += len(behs)
             validated += sum(1 for x in flat if not x["diffs"] and not x["drift"])
+            for b in behs:                     # reachability witnesses, from the behaviours of the specification
+                if any(e in ERROR_KINDS for e in b["exc"]):
+                    witness["a thread ends with an error re-created once by its outermost api call"] += 1
+                view = {}
+                hit = False
+                for h in b["hist"]:
+                    view[h[0]] = h[3]
+                    if h[3][1] == "inc" and any(v[1] != "-" for u, v in view.items() if u != h[0]):
+                        hit = True
+                if hit:
+                    witness["a thread parses an included file while another thread is inside its own contexts"] += 1
+                if b["pre"] >= 1 and len({tuple(v) for v in ([h[3] for h in b["hist"]])}) >= 3:
+                    witness["two threads with different files interleave"] += 1
             mp = 99 if key == "emit_all" else P[key][1]
             cov["configs"].append({"name": key, "spec": "MarkerSpec (history printed at terminal states)",
                                    "assignments": len(P[key] if key == "emit_all" else P[key][0]),
@@ -1061,9 +1074,17 @@ def run(prop, tier, seed, replay, keep):
                             "first_steps": mid["hist"][:6]})
 
         # ---- 6. line-grain schedules (Sched.tla over the measured line counts) ---------------------------------
-        for i, ((jobs, lf, mp), m) in enumerate(zip(P["lines"], meas)):
-            r = result("sched%d" % i)
-            scheds = [x["b"] for x in tlc.json_prints(r["out"], "b")]
+        def phase_sched():
+            r = result("sched")
+            allsched = collections.defaultdict(list)
+            for x in tlc.json_prints(r["out"], "b"):
+                allsched[x["c"]].append(x["b"])
+            for i in range(len(P["lines"])):
+                sched_one(i, allsched.get(i + 1, []), r)
+
+        def sched_one(i, scheds, r):
+            nonlocal evaluations, validated
+            (jobs, lf, mp), m = P["lines"][i], meas[i]
             if not scheds:
                 raise MachineryError("Sched printed no schedule")
             t0 = time.time()
@@ -1080,12 +1101,30 @@ def run(prop, tier, seed, replay, keep):
                                    "traced_lines_per_thread": [a for a, _ in m],
                                    "preemption_points": "every traced line of awesomeyaml/" if lf == "all"
                                    else "every traced line of awesomeyaml/ except namespace.py",
-                                   "max_preemptions": mp, "states": r["distinct"], "transitions": r["generated"],
+                                   "max_preemptions": mp, "states": r["distinct"] if i == 0 else 0,
+                                   "transitions": r["generated"] if i == 0 else 0, "states_note": "one TLC run for all sched*",
                                    "schedules": len(scheds), "own_stream_differences": drift - nd,
                                    "property_differences": viol_count - nv,
                                    "tlc_wall_s": round(r["wall"], 1), "replay_wall_s": round(time.time() - t0, 1)})
             samples.append({"kind": "line-grain schedule printed by TLC (Sched) and replayed: [thread, lines before it is preempted]",
                             "jobs": [list(j) for j in jobs], "blocks": scheds[len(scheds) // 2]})
+
+        # replay in the order in which TLC finishes its enumerations
+        import concurrent.futures as cf
+        todo = {k: (lambda k=k: phase_emit(k)) for k in ("emit_all", "emit_pre", "emit_pre3", "emit_deep") if k in fut}
+        todo["sched"] = phase_sched
+        while todo:
+            ready = [k for k in todo if fut[k].done()]
+            if not ready:
+                cf.wait([fut[k] for k in todo], return_when=cf.FIRST_COMPLETED)
+                continue
+            todo.pop(ready[0])()
+        cov["configs"].sort(key=lambda c: c["name"])
+        cov["witnesses"] = dict(witness)
+        for w in ("a thread ends with an error re-created once by its outermost api call",
+                  "a thread parses an included file while another thread is inside its own contexts"):
+            if not witness[w]:
+                raise MachineryError("no behaviour of the specification witnesses: " + w)
 
         # ---- 7. direction B: TLC judges the recorded runs ------------------------------------------------------
         acc = rej = pv_bad = 0
@@ -1115,7 +1154,7 @@ def run(prop, tier, seed, replay, keep):
                         x["trace"]["tid"] = k + 1
                         f.write(json.dumps(x["trace"]) + "\n")
                 c = dict(BASE_CONSTS)
-                c.update(NThreads=str(nthr), JobAssignments="<- TraceJobs", Soft="TRUE")
+                c.update(NThreads=str(nthr), JobAssignments="<- AnyAssignment", Soft="TRUE")
                 r = tlc_job(wd, "soft%d" % nthr, "Trace_AyThreads", cfg("TSpec", c, ("TEmit", "TProgress")),
                             {"TRACE_FILE": os.path.join(d, "traces.ndjson")}, 8, 600)
                 at = collections.defaultdict(int)
@@ -1169,10 +1208,9 @@ def run(prop, tier, seed, replay, keep):
         pool.terminate()
         pool.join()
         tp.shutdown(wait=False, cancel_futures=True)
+        shutil.rmtree(scratch, ignore_errors=True)
         if not keep:
             tlc.cleanup(wd)
-        for d in os.listdir(tempfile.gettempdir()):
-            pass
 
     cov.update({"states": int(states), "transitions": int(transitions), "traces_validated_against_impl": int(validated),
                 "evaluations": int(evaluations), "distinct_nontrivial": len(nontrivial),
@@ -1183,7 +1221,7 @@ def run(prop, tier, seed, replay, keep):
                 "exhaustive_scope": "TLC: all interleavings of the line-grain specification for the listed job universes; replay: all "
                                     "marker-grain interleavings of the emit_all pairs, all marker-grain schedules within the preemption "
                                     "bound of emit_pre*, all line-grain schedules within the bound of sched*; recorded runs are samples",
-                "samples": samples, "property_differences": viol_count, "drift_samples": drift_samples,
+                "samples": samples, "timeline_s": timeline, "property_differences": viol_count, "drift_samples": drift_samples,
                 "seeded_code_mutants": "see design_parts/C20.md (m1 shared file name, m2 shared api marker: both reported)"})
     summary = {"states": states, "replayed": evaluations, "validated": validated, "mutations_refuted": len(cov["mutations"]),
                "differences": viol_count}
